@@ -59,9 +59,9 @@ ASSUMPTIONS = [
     "Neumann data consistent with the translation: zero traction",
 ]
 REQUIRED = {"solved": 0.95, "dim2": 0.2, "dim3": 0.2, "neumann-present": 0.3, "bc-all_dir": 0.05, "bc-mix": 0.12,
-            "bc-roller": 0.1, "roller-present": 0.06, "reuse-none": 0.1, "reuse-bc-edited": 0.2,
-            "reuse-geometry-edited": 0.08, "reuse-stiffness-edited": 0.08, "reuse-back": 0.15, "reuse-forward": 0.15,
-            "reuse-same-discr": 0.15, "reuse-new-discr": 0.15, "reuse-same-data": 0.15, "reuse-new-data": 0.15,
+            "bc-roller": 0.1, "roller-present": 0.06, "reuse-none": 0.1, "reuse-bc-edited": 0.15,
+            "reuse-geometry-edited": 0.05, "reuse-stiffness-edited": 0.05, "reuse-back": 0.08, "reuse-forward": 0.08,
+            "reuse-same-discr": 0.08, "reuse-new-discr": 0.08, "reuse-same-data": 0.08, "reuse-new-data": 0.08,
             "kind-tri": 0.02, "kind-tet": 0.01, "kind-poly": 0.02, "kind-polyx": 0.02, "perturbed": 0.05}
 
 KAPPA_SINGULAR = 1e10
